@@ -148,3 +148,15 @@ Theorem C05_multi_table_update_frame : forall sets on wh ps cs ps' n,
   length ps' = length ps /\ (forall i, ~ p_takes_part on wh ps cs i -> nth i ps' [] = nth i ps []).
 Proof. exact update_join_frame. Qed.
 Print Assumptions C05_multi_table_update_frame.
+
+(* ... and the values: the kept joined rows hit pairwise different rows of p (a row hit twice is the error of an
+   ambiguous update), each hit row becomes the p-columns of its joined row after the SET items were applied to
+   that joined row as it was before the statement, and the count is the number of kept joined rows *)
+Theorem C05_multi_table_update_values : forall sets on wh ps cs ps' n,
+  update_join sets on wh ps cs = Ok (ps', n) ->
+  exists hs, join_hits on wh ps cs = Ok hs /\ NoDup (map fst hs) /\ n = Z.of_nat (length hs) /\
+    forall i j, In (i, j) hs ->
+      exists r', update_row sets (nth i ps [] ++ nth j cs []) = Ok r' /\
+                 nth i ps' [] = firstn (length (nth i ps [])) r'.
+Proof. exact update_join_values. Qed.
+Print Assumptions C05_multi_table_update_values.
